@@ -11,6 +11,7 @@
         OPS    = ((set oid q) (eval ENV) (fn ENV) (jac ENV) (hess ENV)),  ENV = (("name" q) ..)
         output: per op `-` | bits,bits,.. | path:bits,..   joined by ` ; `
     lru CAP (k ..)           CPython lru_cache policy on natural-number keys: `h`/`m` per request
+    lrusizes                 the regenerated `maxsize` table of the three process-wide caches
 -/
 import Optyx.Sexp
 import Optyx.Denote
@@ -18,8 +19,8 @@ import Optyx.Py.State
 import Optyx.Py.LRU
 import Optyx.Drive.Core
 
-namespace Optyx.Drive
-open Optyx Optyx.Py.State
+namespace Optyx.Drive.StateCmd
+open Optyx Optyx.Drive Optyx.Py.State
 
 /-! ### phist -/
 
@@ -170,6 +171,11 @@ def runLru (cap : Nat) : List (Nat × Nat) → List Nat → List String
     let r := Optyx.Py.LRU.lookupOrCompute (fun a b => a == b) (Optyx.Py.LRU.lru (fun a b => a == b) cap) id c k
     (if hit then "h" else "m") :: runLru cap r.2 ks
 
+end Optyx.Drive.StateCmd
+
+namespace Optyx.Drive
+open Optyx Optyx.Py.State Optyx.Drive.StateCmd
+
 def handleState (cmd : String) (args : List Sexp) : Option String :=
   match cmd, args with
   | "phist", [.list ctx, .list bnd, .list ops] =>
@@ -180,6 +186,8 @@ def handleState (cmd : String) (args : List Sexp) : Option String :=
     some <| match e.toExpr, Sexp.toVars vs, ratStoreOf store, ops.mapM popOf with
       | some e, some vs, some σ, some ops => " ; ".intercalate (runPHist e vs (pinit σ) ops)
       | _, _, _, _ => "bad-input"
+  | "lrusizes", [] =>
+    some <| " ".intercalate (Optyx.Generated.lruSizes.map fun p => p.1 ++ "=" ++ toString p.2)
   | "lru", [.atom cap, .list ks] =>
     some <| match cap.toNat?, natList ks with
       | some cap, some ks => "".intercalate (runLru cap [] ks)
